@@ -15,9 +15,10 @@ import numpy as np
 
 from mc.engine import pool
 from mc.engine.report import Report, Res
-from mc.lib import families as F, kin, zoo
+from mc.lib import families as F, four, kin, zoo
 
 PID = "C01"
+PC4 = {l: True for l, _, pc in four.members("thorough") if pc}
 
 
 def group(tier, seed):
@@ -57,12 +58,22 @@ def card_work(payload):
     G = group(tier, seed)
     for label, cfg, ident in payload["cards"]:
         case = {"part": "card", "label": label, "tier": tier, "seed": seed}
-        ms = [cfg["particle"]["$finals"][x]["mass"] for x in "BCD"]
-        ev = kin.lattice3(zoo.M_TOP, ms, payload["K"], seed=seed, orientations=2)
+        names = "".join(cfg["data"]["dat_order"])
+        fourbody = len(names) == 4
+        if fourbody:
+            ev = four.lattice4(2 if tier == "quick" else 3, seed=seed, orientations=2)
+        else:
+            ms = [cfg["particle"]["$finals"][x]["mass"] for x in "BCD"]
+            ev = kin.lattice3(zoo.M_TOP, ms, payload["K"], seed=seed, orientations=2)
+        # four-body cards: a final particle whose mother is common to two topologies is aligned by a rotation about its
+        # z axis (beta = 0 exactly); the library obtains beta through acos, i.e. with absolute error sqrt(eps) ~ 1.5e-8
+        tol = 1e-7 if fourbody else 1e-9
         n = len(ev[0])
         blocks = [ev]
         labels = [("identity", "identity")]
         for gl, kind, f in G:
+            if kind == "inversion" and fourbody and not payload.get("pc", {}).get(label):
+                continue  # claimed only when every vertex conserves parity
             blocks.append([f(a) for a in ev])
             labels.append((gl, kind))
         if ident:
@@ -72,7 +83,7 @@ def card_work(payload):
             Rm = kin.GENERIC_R
             blocks.append([kin.rotate(ev[1], Rm), kin.rotate(ev[0], Rm), kin.rotate(ev[2], Rm)])
             labels.append(("swapBC+rot", "exchange+rotation"))
-        p4 = {x: np.concatenate([b[i] for b in blocks]) for i, x in enumerate("BCD")}
+        p4 = {x: np.concatenate([b[i] for b in blocks]) for i, x in enumerate(names)}
         try:
             with contextlib.redirect_stdout(io.StringIO()):
                 c, amp = zoo.load(cfg)
@@ -91,9 +102,9 @@ def card_work(payload):
         seen_kind = set()
         for k, (gl, kind) in enumerate(labels[1:], start=1):
             dev = np.abs(dens[k] - base) / np.maximum(np.abs(base), 1e-6 * scale)
-            if dev.max() <= 1e-9:
-                res.stat_max("rel_dev_on_passing_cases", dev.max())
-            if dev.max() > 1e-9:
+            if dev.max() <= tol:
+                res.stat_max("rel_dev_on_passing_cases_4body" if fourbody else "rel_dev_on_passing_cases", dev.max())
+            if dev.max() > tol:
                 fam = label.split("|")[0]
                 if (kind, fam) in seen_kind:
                     res.count("violations_total")
@@ -150,17 +161,21 @@ def cards(tier):
             for tag, data in (("(default-align)", {}), ("(cm-align)", {"align_ref": "center_mass", "center_mass": True})):
                 cfg, _ = F.id_member(fam, i, data=data)
                 out.append(("%s%s|BD=%d" % (fam[0], tag, i), cfg, True))
+    for l, cfg, pc in four.members(tier):
+        out.append((l, cfg, False))
     return out
 
 
 def run(tier, seed, only=None):
     rep = Report(
         PID, tier, seed, "exploration",
-        rule="cards (7 spin families x chain subsets x resonance spin-parities x second resonance + 3 identical-particle families) x Dalitz lattice (2 orientations) x G "
+        rule="cards (7 three-body spin families x chain subsets x resonance spin-parities x second resonance + 3 identical-particle families + 5 four-body spin sets x combinations of 4 topologies) x "
+             "event lattice (Dalitz lattice / lattice of sequential two-body decays, 2 generic orientations) x G "
              "(cube rotations, Euler rotations, boosts beta in {0.1,0.5,0.9,0.99} x 8 directions, rotation o boost both orders, inversion, exchange of identical particles); "
              "evaluations = transformed events; distinct = card with strictly positive density on the lattice",
         assumptions=["events on finite lattices (analyticity remark in DESIGN section 5)", "default data options (random_z=True, r_boost=True, align_ref=None) unless the card says otherwise",
-                     "three-body decays: inversion is claimed for every card", "tolerance 1e-9 relative (1e-6 of the largest density as floor)"],
+                     "three-body decays: inversion is claimed for every card; four-body: only for the cards in which every vertex conserves parity",
+                     "tolerance 1e-9 relative (1e-6 of the largest density as floor); 1e-7 for four-body cards (alignment angle beta = 0 obtained through acos, see DESIGN section 7)"],
     )
     cs = cards(tier)
     if seed:
@@ -170,9 +185,10 @@ def run(tier, seed, only=None):
     parts = only or ["card", "edge"]
     out = []
     if "card" in parts:
-        out += pool.run_items("mc.props.C01", "card_work", [{"cards": cs[i::n], "tier": tier, "seed": seed, "K": 4 if tier == "quick" else 6} for i in range(n) if cs[i::n]])
+        out += pool.run_items("mc.props.C01", "card_work", [{"cards": cs[i::n], "tier": tier, "seed": seed, "K": 4 if tier == "quick" else 6, "pc": PC4} for i in range(n) if cs[i::n]])
     if "edge" in parts:
-        out += pool.run_items("mc.props.C01", "edge_work", [{"cards": cs[i::14]} for i in range(14) if cs[i::14]])
+        cs3 = [x for x in cs if len(x[1]["data"]["dat_order"]) == 3]
+        out += pool.run_items("mc.props.C01", "edge_work", [{"cards": cs3[i::14]} for i in range(14) if cs3[i::14]])
     for r in out:
         rep.merge(r)
     rep.extra["cards"] = len(cs)
@@ -185,5 +201,5 @@ def replay(case):
         if l == lab:
             if case["part"] == "edge":
                 return edge_work({"cards": [(l, c, ident)]})["viol"]
-            return card_work({"cards": [(l, c, ident)], "tier": case.get("tier", "quick"), "seed": case.get("seed", 0), "K": 4})["viol"]
+            return card_work({"cards": [(l, c, ident)], "tier": case.get("tier", "quick"), "seed": case.get("seed", 0), "K": 4, "pc": PC4})["viol"]
     return [{"fp": "replay", "what": "card %s not found" % lab}]
